@@ -582,6 +582,19 @@ def _ending_case(args):
         for f in failing:
             if f in o1["started"] and ("FAILED: " not in o1["out"]):
                 out["problems"].append("the failure of %s is not reported (no FAILED: line)" % f)
+        # "a non-zero status taken from a failed command", shown with the FAILED line: what the command ended with -- its
+        # exit code, or 128 + the number of the signal that terminated it (what a shell reports, and what ninja makes of a
+        # child that died itself).  Death by the interrupt signals is an interruption (exit 130 / no FAILED block).
+        if len(failing) == 1 and failing[0] in o1["started"] and not o1.get("timeout") and not o1.get("hang"):
+            fl = op["faults"][failing[0]]
+            want = 128 + fl["dies"] if fl.get("dies") else fl.get("code", 1)
+            if not (fl.get("dies") in (2, 15, 1)) and want != 130:
+                if o1["exit"] != want:
+                    out["problems"].append("%s ended with status %d and ninja exited %s" % (failing[0], want, o1["exit"]))
+                if "FAILED: [code=%d]" % want not in o1["out"]:
+                    import re as _re
+                    shown = _re.findall(r"FAILED: \[code=(\d+)\]", o1["out"])
+                    out["problems"].append("%s ended with status %d and the FAILED line says %s" % (failing[0], want, shown or "nothing"))
         for d in sorted(down):
             if d in o1["started"]:
                 out["problems"].append("%s started although its input's producer had failed" % d)
@@ -619,6 +632,10 @@ def endings(tier="quick"):
             for k in (1, 0):
                 ops.append(ninja_op(j=2, k=k, faults={"a": {"dies": num, "touch": touch}},
                                     label="ninja -j2 -k%d, a dies of %s%s" % (k, name, " after overwriting its output" if touch else "")))
+    # a tool that crashes where core dumps are enabled (the wait status carries the "core dumped" bit next to the signal)
+    for name in ("SIGSEGV", "SIGABRT"):
+        ops.append(ninja_op(j=2, k=1, faults={"a": {"dies": FATAL_SIGNALS[name], "core": True}},
+                            label="ninja -j2 -k1, a dies of %s and dumps core" % name))
     for code in ((1, 2, 127, 255) if tier == "quick" else (1, 2, 3, 126, 127, 128, 129, 137, 139, 143, 254, 255)):
         for k in (1, 0):
             ops.append(ninja_op(j=2, k=k, faults={"a": {"code": code, "touch": True}}))
